@@ -83,7 +83,7 @@ type poolOp struct {
 	U    int    `json:"u"`
 	Cap  int    `json:"cap,omitempty"`
 	D    []byte `json:"d,omitempty"`
-	Mode string `json:"mode,omitempty"` // len+ | cap-1 | cap | cap+1 | shrink
+	Mode string `json:"mode,omitempty"` // len+ | cap-1 | cap | cap+1 | shrink | cut (s[:len-k])
 	K    int    `json:"k,omitempty"`
 }
 
@@ -681,19 +681,23 @@ func c08PoolSeq(ctx *core.Ctx, in c08Input) {
 				n = cap(s)
 			case "cap+1":
 				n = cap(s) + 1
-			case "shrink":
+			case "shrink", "cut":
 				n = len(s) - o.K
 			}
 			if n < 0 {
 				n = 0
 			}
-			if o.Mode != "shrink" && n < len(s) {
+			if o.Mode != "shrink" && o.Mode != "cut" && n < len(s) {
 				n = len(s)
 			}
 			if n < len(s) {
 				shrink = true
 			}
-			s = pool.Resize(s, n)
+			if o.Mode == "cut" {
+				s = s[:n] // reslicing by hand: the same observation as Resize to a smaller size
+			} else {
+				s = pool.Resize(s, n)
+			}
 			held[o.U] = s
 			ops = append(ops, fmt.Sprintf("PResize %s %s", hx.CoqZ(int64(o.U)), hx.CoqZ(int64(n))))
 		case "put":
@@ -738,11 +742,18 @@ func genPoolSeq(r *hx.Rand) c08Input {
 			holding[u] = true
 			continue
 		}
-		switch r.Intn(5) {
+		switch r.Intn(6) {
 		case 0, 1:
 			pops = append(pops, poolOp{Op: "append", U: u, D: alpha(u, r.Range(1, 40))})
 		case 2:
 			pops = append(pops, poolOp{Op: "resize", U: u, Mode: []string{"len+", "len+", "cap-1", "cap", "cap+1"}[r.Intn(5)], K: r.Range(0, 48)})
+		case 3:
+			// shrink (Resize to smaller, or s[:k]) - typically right before the Put that follows
+			pops = append(pops, poolOp{Op: "resize", U: u, Mode: []string{"shrink", "cut"}[r.Intn(2)], K: r.Range(1, 40)})
+			if r.Chance(2, 3) {
+				pops = append(pops, poolOp{Op: "put", U: u})
+				holding[u] = false
+			}
 		default:
 			pops = append(pops, poolOp{Op: "put", U: u})
 			holding[u] = false
@@ -977,7 +988,18 @@ func runConc(in c08Input) concResult {
 						break
 					}
 					j.result = "Same"
-					if j.name%2 == 0 {
+					if j.name%3 == 2 {
+						// write, then shrink before Put: the next user of the array must still see zeroes only
+						s = append(s, j.data...)
+						if !bytes.Equal(s, j.data) {
+							j.result = "Differs"
+						}
+						if j.name%2 == 0 {
+							s = shared.Resize(s, len(s)/3)
+						} else {
+							s = s[:len(s)/3]
+						}
+					} else if j.name%2 == 0 {
 						// the whole API: grow with Resize (must show zeroes only), fill, check, Put at full length
 						s = shared.Resize(s, len(j.data)+j.name%5)
 						for _, b := range s {
